@@ -491,6 +491,45 @@ let () =
                   | Some r -> "fail:" ^ r
                   | None -> if !known then "fail:evict-then-append" else "ok") in
         Mlutil.print_model model verdict
+    | "srv", [capf; _poolf; _period; mailsf] ->
+        (* the SERVER stopped and started again on the same storage path: the ordered map does not restart, and
+           retention with period 0 (disabled) / hours removes nothing within the seconds a case takes *)
+        let cap = int_of_string capf in
+        let boxes = ["sa"; "sb"; "sc"] in
+        let capn = nat_of_int cap in
+        let add l x = let n = int_of_nat (evict_count capn (nat_of_int (List.length l))) in drop n l @ [x] in
+        let mails = split ',' mailsf in
+        (* subjects per mailbox after the first incarnation *)
+        let st = ref (List.map (fun b -> (b, [])) boxes) in
+        List.iteri (fun i mb -> st := List.map (fun (b, l) -> if b = mb then (b, add l ("s" ^ string_of_int i)) else (b, l)) !st) mails;
+        (* handles are issued in order of first appearance in a listing *)
+        let seen = ref (List.map (fun b -> (b, [])) boxes) in
+        let render () =
+          String.concat "|" (List.map (fun (b, l) ->
+            if l = [] then "-" else
+            String.concat ";" (List.map (fun subj ->
+              let known = List.assoc b !seen in
+              let rec idx i = function [] -> -1 | x :: r -> if x = subj then i else idx (i + 1) r in
+              let h = idx 0 known in
+              let h = if h >= 0 then h else begin
+                seen := List.map (fun (b', k) -> if b' = b then (b', k @ [subj]) else (b', k)) !seen; List.length known end in
+              Printf.sprintf "k%d.%s" h (Mlutil.hex subj)) l)) !st) in
+        let l1 = render () in
+        let l2 = render () in
+        let first = List.hd mails in
+        st := List.map (fun (b, l) -> if b = first then (b, add l ("s" ^ string_of_int (List.length mails))) else (b, l)) !st;
+        let l3 = render () in
+        let model = ["l1=" ^ l1; "l2=" ^ l2; "l3=" ^ l3; "same=1"] in
+        let verdict =
+          match outs with
+          | "SETUPERR" :: _ | "CRASH" :: _ | "HANG" :: _ | "NOOUTPUT" :: _ -> "fail:server-incarnation-did-not-run:" ^ String.concat "," outs
+          | _ ->
+            if field outs "l1" <> l1 then "fail:listing-after-the-deliveries-differs-from-ordered-map"
+            else if field outs "l2" <> field outs "l1" || field outs "same" <> "1" then
+              "fail:mailboxes-differ-after-server-restart"
+            else if field outs "l3" <> l3 then "fail:delivery-after-server-restart-differs-from-ordered-map"
+            else "ok" in
+        Mlutil.print_model model verdict
     | "conc", [capf; poolf; nf; kf; trialsf] ->
         (* after each real restart the FIRST accesses to mailbox 0 are k overlapping reads, then one mutation.
            Reads do not change the ordered map (reopen_transparent / ops_refine_ordered_map): every reader must
